@@ -871,9 +871,11 @@ func (p *Property) check(tier string) int {
 			directed = p.Directed(tier)
 		}
 		type dres struct {
-			id int
-			d  string
-			ok bool
+			id   int
+			d    string
+			ok   bool
+			viol []Violation
+			plan []byte
 		}
 		ch := make(chan dres, len(ids))
 		sem := make(chan struct{}, W)
@@ -881,15 +883,16 @@ func (p *Property) check(tier string) int {
 			sem <- struct{}{}
 			go func(id int) {
 				defer func() { <-sem }()
-				res, err := p.execInChild(p.planFor(seed, tier, id, directed), false)
+				plan := p.planFor(seed, tier, id, directed)
+				res, err := p.execInChild(plan, false)
 				if err != nil {
-					ch <- dres{id, "", false}
+					ch <- dres{id: id}
 					return
 				}
 				if res.Digest == "" {
 					res.Digest = "process-died"
 				}
-				ch <- dres{id, res.Digest, true}
+				ch <- dres{id, res.Digest, true, res.Viol, plan}
 			}(id)
 		}
 		for range ids {
@@ -899,6 +902,17 @@ func (p *Property) check(tier string) int {
 			}
 			detChecked++
 			if r.d != agg.Digests[strconv.Itoa(r.id)] {
+				if len(r.viol) > 0 {
+					// the run alone in a fresh process violates the property although it did not inside
+					// its worker (state left by earlier runs hid it, e.g. a table that is only wrong while
+					// cold): that is a violation found in a fresh process, not harness nondeterminism
+					for _, v := range r.viol {
+						if p.HangIsViolation || v.Component != "watchdog" {
+							agg.Viol = append(agg.Viol, violRecord{r.id, v, json.RawMessage(r.plan), -1})
+						}
+					}
+					continue
+				}
 				detMismatch++
 				fmt.Printf("[%s] determinism mismatch on run %d: %s vs %s\n", p.ID, r.id, r.d, agg.Digests[strconv.Itoa(r.id)])
 			}
